@@ -204,6 +204,9 @@ func (a *AddressDecMap) Decode(r stdio.Reader) (err error) {
 		if err != nil {
 			return errors.WithMessage(err, "decoding map index")
 		}
+		if !HasBackend(BackendID(idx)) {
+			return errors.Errorf("decoding %d-th address map entry: unknown backend id %d", i, idx)
+		}
 		addr := NewAddress(BackendID(idx))
 		err = perunio.Decode(r, addr)
 		if err != nil {
